@@ -133,6 +133,11 @@ class Actor:
             elif op == "L":
                 self.s.DoLocalRefinement(4)
                 self.sol = self.s.GetResults()
+            elif op == "B":
+                # this solver's evolvent is re-configured by the user (SetBounds to a shifted box): its own business only
+                lo = np.array(self.p.lowerBoundOfFloatVariables, dtype=float) + 0.25 * (self.spec.get("shift", 1))
+                up = np.array(self.p.upperBoundOfFloatVariables, dtype=float) + 0.5 * (self.spec.get("shift", 1))
+                self.s.evolvent.SetBounds(lo, up)
             elif op == "P":
                 # a read-only query of this solver's evolvent about the points the OTHER solvers report as their optima
                 # (the arrays themselves are handed over, as a user comparing solvers would)
@@ -436,6 +441,10 @@ def run(ctx):
     for N in (1, 2):
         tasks += shared("problem", (N, N), ("neg", "neg"), ["c", "i", "i", "L", "i", "r"])
         tasks += shared("own", (N, N), ("neg", "quad0"), ["c", "i", "i", "L", "i", "r"])
+    # one of two solvers (own and shared Problem) has its evolvent re-configured with SetBounds
+    for N in (1, 2):
+        tasks += shared("problem", (N, N), ("neg", "neg"), ["c", "i", "B", "i", "i", "r"])
+        tasks += shared("own", (N, N), ("neg", "quad0"), ["c", "i", "B", "i", "i", "r"])
     # read-only evolvent queries about the other solver's reported optimum
     for N in (1, 2):
         sp = [dict(f="neg", N=N, box="B1", r=2.0, eps=0.05, limit=8), dict(f="quad0", N=N, box="B1", r=3.0, eps=0.05, limit=8)]
